@@ -1,22 +1,38 @@
 import RpmVerif.Model.Basic
 import RpmVerif.Gen.CapsTable
 /-!
-# Model of `src/rpm/filecaps.rs` (C19) on ASCII text
+# Model of `src/rpm/filecaps.rs` (C19) on all Rust strings
 
-A string is the list of its byte codes (`List Nat`, every code `< 128`; for ASCII text bytes and
-`char`s coincide, so byte indices returned by `find` are element indices).  Non-ASCII input is out of
-the model (Unicode `to_uppercase`, Unicode whitespace): the driver does not predict it.
+A string is the list of its Unicode scalar values (`List Nat`, code points — what Rust's `chars()`
+yields).  Nothing here is restricted to ASCII:
+
+* `str::trim`, `str::split_whitespace` use `char::is_whitespace` = the Unicode `White_Space` property
+  (`isWs`, the table of `core::unicode::white_space` transcribed by hand);
+* `to_ascii_uppercase`, `eq_ignore_ascii_case` change the 26 ASCII letters only and leave every other
+  code point alone (`toAsciiUpper`, `toAsciiLower`);
+* `str::find` returns a **byte** index and `part[..index]` / `part[index..]` slice **bytes**; the
+  pattern `['+', '-', '=']` matches ASCII chars only, UTF-8 never uses the bytes `0x00–0x7F` inside a
+  multi-byte sequence, so the byte index of the match is a char boundary and the two slices are
+  exactly the chars before the first operator char and the chars from it on.  The model therefore
+  works with the *char* index (`findOp`, `List.take`, `List.drop`); `index == 0` is the same test in
+  both units.
 
 Function by function, same order of tests as the Rust code *as it is now* (after `fix:` 0cd6a82: the
-leading-`=` rule tests the clause `part`, not the whole text).
+leading-`=` rule tests the clause `part`, not the whole text; after `fix:` e20037b: names are
+upper-cased with `to_ascii_uppercase`, not with the Unicode `to_uppercase`).  The code before
+e20037b is kept as the parameterised `validateCapsTextWith` at the end of this file; it is used only
+by the witness theorem `C19.old_unicode_upper_witness`.
 -/
 namespace RpmVerif.FileCaps
 open RpmVerif
 
 abbrev Str := List Nat
 
-/-- `char::is_whitespace` restricted to ASCII: U+0009..U+000D and U+0020 -/
-def isWs (c : Nat) : Bool := (9 ≤ c && c ≤ 13) || c == 32
+/-- `char::is_whitespace`: the Unicode `White_Space` property (Rust `core::unicode::white_space`):
+U+0009–U+000D, U+0020, U+0085, U+00A0, U+1680, U+2000–U+200A, U+2028, U+2029, U+202F, U+205F, U+3000 -/
+def isWs (c : Nat) : Bool :=
+  (9 ≤ c && c ≤ 13) || c == 32 || c == 0x85 || c == 0xA0 || c == 0x1680 || (0x2000 ≤ c && c ≤ 0x200A) ||
+  c == 0x2028 || c == 0x2029 || c == 0x202F || c == 0x205F || c == 0x3000
 
 /-- `str::trim_start` -/
 def trimStart (s : Str) : Str := s.dropWhile isWs
@@ -38,27 +54,31 @@ def splitWhitespace (s : Str) : List Str := (split isWs s).filter (fun w => !w.i
 /-- one of `['+', '-', '=']` -/
 def isOpCh (c : Nat) : Bool := c == 43 || c == 45 || c == 61
 
-/-- `part.find(['+', '-', '='])` -/
+/-- `part.find(['+', '-', '='])`, as a char index (see the header: the byte index Rust returns is the
+byte offset of this char, and the chars before it are exactly `part[..index]`) -/
 def findOp : Str → Option Nat
   | [] => none
   | c :: r => if isOpCh c then some 0 else (findOp r).map (· + 1)
 
-/-- `u8::to_ascii_lowercase` -/
+/-- `char::to_ascii_lowercase` (non-ASCII code points are unchanged) -/
 def toAsciiLower (c : Nat) : Nat := if 65 ≤ c ∧ c ≤ 90 then c + 32 else c
-/-- `char::to_uppercase` on an ASCII char (`str::to_uppercase` maps it over the string) -/
-def toUpper (c : Nat) : Nat := if 97 ≤ c ∧ c ≤ 122 then c - 32 else c
+/-- `char::to_ascii_uppercase` (`str::to_ascii_uppercase` maps it over the string; non-ASCII code
+points are unchanged) -/
+def toAsciiUpper (c : Nat) : Nat := if 97 ≤ c ∧ c ≤ 122 then c - 32 else c
 
 /-- `"all"` -/
 def allLit : Str := [97, 108, 108]
 
-/-- `str::eq_ignore_ascii_case`: equal lengths and bytewise equal after `to_ascii_lowercase` -/
+/-- `str::eq_ignore_ascii_case`: equal byte lengths and bytewise equal after `u8::to_ascii_lowercase`;
+bytes ≥ 0x80 are compared as they are, so this is: equal as char sequences after
+`char::to_ascii_lowercase` (UTF-8 is injective and ASCII letters are single bytes) -/
 def eqIgnoreAsciiCase (a b : Str) : Bool := a.map toAsciiLower == b.map toAsciiLower
 
 /-- the `for part in s.split(',')` loop of `validate_capset` -/
 def capsetLoop : List Str → Out Unit
   | [] => .ok ()
   | part :: ps =>
-    if !(Gen.capsTable.contains (part.map toUpper)) then .err "unknown-cap" else capsetLoop ps
+    if !(Gen.capsTable.contains (part.map toAsciiUpper)) then .err "unknown-cap" else capsetLoop ps
 
 def validateCapset (s : Str) : Out Unit :=
   if s.isEmpty || eqIgnoreAsciiCase s allLit then .ok ()
@@ -121,5 +141,44 @@ def fileOptionsCaps (caps : Str) : Out (Option FileCaps) :=
   | .ok c => .ok (some c)
   | .err _ => .err "InvalidCapabilities"
   | .panic p => .panic p
+
+/-! ## The code before `fix:` e20037b, parameterised by the upper-casing
+
+`validate_capset` used `part.to_uppercase()`: the Unicode upper-casing, which maps one char to one
+**or more** chars (`upper : Nat → List Nat`; `str::to_uppercase` concatenates the images).  Everything
+else is as above.  Instantiated with `fun c => [toAsciiUpper c]` this is the model above
+(`Lemmas/FileCaps.lean`, `validateCapsTextWith_ascii`). -/
+
+def capsetLoopWith (upper : Nat → List Nat) : List Str → Out Unit
+  | [] => .ok ()
+  | part :: ps =>
+    if !(Gen.capsTable.contains (part.flatMap upper)) then .err "unknown-cap" else capsetLoopWith upper ps
+
+def validateCapsetWith (upper : Nat → List Nat) (s : Str) : Out Unit :=
+  if s.isEmpty || eqIgnoreAsciiCase s allLit then .ok ()
+  else capsetLoopWith upper (split (· == 44) s)
+
+def validateClauseWith (upper : Nat → List Nat) (part : Str) : Out Unit :=
+  match findOp part with
+  | none => .err "no-op"
+  | some index =>
+    if index == 0 && !(part.head? == some 61) then .err "first-char"
+    else do
+      validateCapsetWith upper (part.take index)
+      validateSuffix (part.drop index)
+
+def clauseLoopWith (upper : Nat → List Nat) : List Str → Out Unit
+  | [] => .ok ()
+  | part :: ps => do validateClauseWith upper part; clauseLoopWith upper ps
+
+def validateCapsTextWith (upper : Nat → List Nat) (s : Str) : Out Unit :=
+  if (trim s).isEmpty then .err "empty" else clauseLoopWith upper (splitWhitespace (trim s))
+
+/-- a few entries of Unicode's upper-casing (`char::to_uppercase`) beyond ASCII: U+0131 dotless i ↦ `I`,
+U+017F long s ↦ `S`, U+00DF sharp s ↦ `SS`, U+FB05 / U+FB06 (ligatures long-s-t / st) ↦ `ST`; the ASCII
+letters as usual; every other code point is left alone here (this is a sample, not the full table) -/
+def unicodeUpperSample (c : Nat) : List Nat :=
+  if c == 0x131 then [73] else if c == 0x17F then [83] else if c == 0xDF then [83, 83]
+  else if c == 0xFB05 || c == 0xFB06 then [83, 84] else [toAsciiUpper c]
 
 end RpmVerif.FileCaps
